@@ -106,7 +106,8 @@ fn log_len(cn: &Conn) -> usize {
 fn call_case(cfg: &Cfg, cn: &mut Conn, c: Cf, op: &FeOp, kinds: u64, case: &str) -> bool {
     let before = log_len(cn);
     let recorded_before = crate::rec::HANDLERS_RECORDED.load(std::sync::atomic::Ordering::SeqCst);
-    let mut lent = Lent { kinds, ..Lent::default() };
+    let mut lent = Lent::default();
+    lent.kinds = kinds;
     let out = match c.adapter {
         1 => {
             let l = RwLock::new(Fwd(cn.fe.clone()));
@@ -280,6 +281,33 @@ fn accepted_calls(cfg: &Cfg, rng: &mut Rng) {
         report::count("sessions", 1);
         if let Some(bad) = results.iter().find(|r| *r != "Ok" && !r.contains("Disconnected") && !r.contains("PartialMessage")) {
             report::observe("server-loop-ended-with", J::S(bad.clone()));
+        }
+    }
+}
+
+/// Descriptor number 0 is a descriptor like any other: every call that takes a raw descriptor number is made
+/// with the lent file installed as number 0 (the harness's own descriptor 0 is parked and restored).
+fn descriptor_zero(cfg: &Cfg, rng: &mut Rng) {
+    for kind in 0..ops::N_OP_KINDS {
+        let op = ops::rand_op(rng, 256, Some(kind));
+        if !matches!(op, FeOp::AddMemRegion(_) | FeOp::SetMemTable(_) | FeOp::SetInflightFd(..) | FeOp::SetLogBase(..)) {
+            continue;
+        }
+        let mut tries = 0;
+        let mut op = op;
+        while op.locally_invalid(256) && tries < 50 {
+            op = ops::rand_op(rng, 256, Some(kind));
+            tries += 1;
+        }
+        if op.locally_invalid(256) {
+            continue;
+        }
+        for (nr, ra) in [(true, true), (false, false)] {
+            let c = Cf { need_reply: nr, reply_ack: ra, adapter: 0 };
+            let mut cn = session(c, 256);
+            report::count("descriptor-zero", 1);
+            call_case(cfg, &mut cn, c, &op, 0x100, &format!("fdzero:{kind}"));
+            let _ = cn.finish();
         }
     }
 }
@@ -529,5 +557,9 @@ pub fn run(cfg: &Cfg) {
     }
     if part.is_empty() || part == "all" || part == "minimal" {
         minimal_negotiation(&c, &mut rng);
+    }
+    if (part.is_empty() && cfg.shard == 0) || part == "all" || part == "fdzero" {
+        let mut r2 = Rng::new(0xfd0);
+        descriptor_zero(cfg, &mut r2);
     }
 }
